@@ -173,6 +173,33 @@ T = {
     "C10d": ("C10", "a new helper canonical_row sorts a row's (variable, value) pairs by value; both row-canonicalisation sites use it",
              "ISTREAM / DSTREAM, a row that binds two variables to the same term and stays in the window for two firings",
              "C10-R8 (a row has one canonical form: sorted by a key unique within the row)", "missed by C10-R1..R7; C10-R8 added"),
+    "C11d": ("C11", "execute_window_plans_on_external_buckets reuses one scratch database for all windows and clears it only when the window has a bucket this round",
+             "cross-window rules enabled, a window without a bucket in the round listed after one with a bucket, shared vocabulary",
+             "C11-R3 (the external-bucket path builds a fresh database inside the per-window loop)", None),
+    "C12d": ("C12", "find_premise_solutions_with_triples takes (delta_facts, all_facts) but its caller still passes (all_facts, effective_delta): both are &[Triple]",
+             "a rule with three or more premises and a history in which only one premise of a derivation is new at some evaluation",
+             "C12-R10 (delta and total keep their roles across the call)", "missed by C12-R1..R9 (and by the C05 / C06 checks); C12-R10 added"),
+    "C13d": ("C13", "parse_turtle strips trailing `# comment`s with a scanner that decides whether a quote is escaped by looking at the previous character",
+             "one Turtle line with a literal that ends in an escaped backslash followed by a later literal containing `#`",
+             "C13-R10 (escapes are tracked by state, not by looking back)", "missed by C13-R1..R9; C13-R10 added"),
+    "C14d": ("C14", "generate_turtle writes IRIs as prefix:local under a declared prefix, allowing `.` inside the local name; the line tokenizer cuts undelimited text at `.`",
+             "a declared prefix and an IRI in that namespace with an inner dot (`report.pdf`)",
+             "C14-R7 (an undelimited format placeholder is written only after excluding `.`, `,` and `;`)", "missed by C14-R1..R7 as they were; C14-R7 extended to format templates in helper closures"),
+    "C15d": ("C15", "reencode_term_id (union) passes the already-clean lexical form through the surface-syntax cleaner again",
+             "the other database holds a term that starts with `<` and ends with `>`, has surrounding blanks, or starts with a quote",
+             "C15-R5 (the translated id comes only from the cache, Dictionary::encode(decoded term) or QuotedTripleStore::encode)", None),
+    "C16d": ("C16", "SparqlNestingGuard::enter builds the guard only after the charge succeeded: a failed charge is never refunded and the thread-local counter keeps it",
+             "more than 128 nested groups / quoted triples (rejected), then further parses on the same thread",
+             "C16-R9 (a charge that fails is refunded)", "missed by C16-R1..R8; C16-R9 added"),
+    "C17d": ("C17", "format_parse_error locates the error slice with nom's Offset (address subtraction) instead of the length difference",
+             "a malformed request that ends inside a `#` comment without a line break (sparql_skip_ws then reports the static \"\")",
+             "C17-R2 (certificates: `Offset::offset` needs the second slice to be derived from the first)", "missed by C17-R1..R4; the certificate analysis now treats Offset::offset as panic-capable"),
+    "C18d": ("C18", "backward_chaining restricts each answer to the goal's variables before flattening variable chains against the restricted map",
+             "a rule whose head repeats a variable, reached at depth >= 1 through a join on a fresh body variable",
+             "C18-R6 (substitutions are written only by unification)", None),
+    "C19d": ("C19", "query_with_repairs seeds its candidates from the smallest repair but still skips repair 0 when filtering",
+             "maximal repairs of different sizes, the smallest not discovered first, a query matching a fact only the smallest repair has",
+             "C19-R2 (candidates are seeded from the first repair; only the seeding repair is skipped)", None),
     "C16b": ("C16", "sparql_aggregate returns the slice matched by the case-insensitive keyword helper instead of the canonical literal",
              "an aggregate keyword not written in upper case", "C16-R4 (keyword text never reaches the tree)",
              "missed by C16-R1..R3 (C01-R1 fired only through a floor, for the wrong reason); C16-R4 added, C01-R1 reads constant tables"),
